@@ -55,9 +55,10 @@ Check (C09_explicit_coercible :
   explicit_c o doc allow vds v = true -> coercible o doc vds v = true).
 Print Assumptions C09_explicit_coercible.
 
-Check (C09_config_plumbing_refuted :
-  oo_allow (oopts_from_config false) = true /\
-  let vds := [mkVarDef pos0 (s "b") pos0 (ex_ty "E") None []] in
-  has_type_b (vars_env ex_ms) 40 (variables_type (oopts_from_config false) vds) (VObj []) = Some true
-  /\ explicit_c ex_opts ex_doc false vds (VObj []) = false).
-Print Assumptions C09_config_plumbing_refuted.
+Check (C09_omission_from_config :
+  forall o doc ms configured vds v,
+  wf_schema o doc = true -> namespace_members o doc OpIn = Ok ms -> vars_wf doc vds = true ->
+  explicit_c o doc true vds v = true -> explicit_c o doc false vds v = false ->
+  (In_type (vars_env ms) (variables_type (oopts_from_config configured) vds) v <-> config_allow_undefined configured = true)
+  /\ (NotIn_type (vars_env ms) (variables_type (oopts_from_config configured) vds) v <-> config_allow_undefined configured = false)).
+Print Assumptions C09_omission_from_config.
